@@ -19,8 +19,8 @@ CFG = {
     "C03": {"props": ["C03", "C03Num"], "profiles": [("control", 0.8), ("int", 0.2)],
             "quick": (2000, 480), "thorough": (20000, 3000), "per_func": 3, "sim": {"quick": 240, "thorough": 1600},
             "opt": {"quick": 8, "thorough": 120}, "what": "control flow / operand stack / locals"},
-    "C04": {"props": ["C04", "C04Mangle", "C04Tables", "C04Child", "C03Num"],
-            "gens": [("Mangle", "gen_mangle"), ("InitTables", "gen_inittables"), ("Instantiate", "gen_instantiate")],
+    "C04": {"props": ["C04", "C04Mangle", "C04Ident", "C04Tables", "C04Child", "C03Num"],
+            "gens": [("InitTables", "gen_inittables"), ("Instantiate", "gen_instantiate")],
             "tables_text": {"quick": 150, "thorough": 3000}, "family": {"quick": 40, "thorough": 800}, "profiles": [("calls", 0.85), ("init", 0.15)],
             "quick": (1500, 400), "thorough": (12000, 3000), "per_func": 4, "sim": {"quick": 300, "thorough": 1600},
             "opt": {"quick": 28, "thorough": 400}, "what": "direct / indirect / recursive / imported calls"},
@@ -68,9 +68,18 @@ def ref_escape(name):
     return "".join(out)
 
 
+def ref_escape_module(name):
+    """the module part of an import's identifier (since /repo ed458af): a leading digit is written as X%02X, the rest is escaped as a
+    name of its own"""
+    b = bytes(name)
+    if b and 0x30 <= b[0] <= 0x39:
+        return "X%02X" % b[0] + ref_escape(b[1:])
+    return ref_escape(b)
+
+
 def underscore_boundary_collision(spec):
     """DISTINCT (module, field) import names of one C name space (functions; struct fields = memories, tables, globals) that the
-    documented scheme `esc(module) ++ "__" ++ esc(field)` maps to the same identifier: possible only when underscores touch the
+    documented scheme `escModule(module) ++ "__" ++ esc(field)` maps to the same identifier: possible only when underscores touch the
     module/field boundary (Props/C04Mangle.mangle_injective covers every other pair).  This is the recorded finding KEY_UNDERSCORE;
     a collision that the reference scheme does not produce (e.g. a change of the escaping rule) is never attributed to it."""
     try:
@@ -81,7 +90,7 @@ def underscore_boundary_collision(spec):
     for im in m.imports:
         space = "func" if im.kind == "func" else "field"
         pair = (bytes(im.module), bytes(im.field))
-        key = (space, ref_escape(im.module) + "__" + ref_escape(im.field))
+        key = (space, ref_escape_module(im.module) + "__" + ref_escape(im.field))
         if key in seen and seen[key] != pair:
             return [list(map(repr, seen[key])), list(map(repr, pair)), key[1]]
         seen.setdefault(key, pair)
